@@ -265,7 +265,7 @@ def op_arith(st, op, info):
     else:
         r_ = op["r"]
         if isinstance(r_, dict):
-            y = float(r_["num"])
+            y = _number(r_["num"])
             info.inputs = [x]
         else:
             if f.startswith("r"):
@@ -360,7 +360,7 @@ def op_slice(st, op, info):
 def _make_rhs(st, spec):
     """returns (rhs object, kind, source array or None)"""
     if "num" in spec:
-        return float(spec["num"]), "num", None
+        return _number(spec["num"]), "num", None
     if "ref" in spec:
         src = st.slot(spec["ref"])
         if src is None:
@@ -441,6 +441,11 @@ def op_setitem(st, op, info):
     call(st, op, thunk, info)
 
 
+def _number(n):
+    """numbers reach flodym the way users write them: `a[...] = 0` (a Python int) as often as `a[...] = 2.0`"""
+    return int(n) if int(n) % 2 == 0 else float(n)
+
+
 def op_set_values(st, op, info):
     t = st.slot(op["t"])
     if t is None:
@@ -450,7 +455,7 @@ def op_set_values(st, op, info):
     info.target = t
     tshape = t.values.shape if isinstance(t.values, np.ndarray) else ()
     if "num" in op:
-        v = float(op["num"])
+        v = _number(op["num"])
         info.kind = "set_values:num"
     else:
         shp = tshape
